@@ -214,19 +214,24 @@ Proof.
 Qed.
 
 (* ---------------------------------------------------------------- assignments *)
+(* the thresholds read from the source *)
+Lemma set_level_3 : set_level = 3%nat. Proof. reflexivity. Qed.
+Lemma write_level_2 : write_level = 2%nat. Proof. reflexivity. Qed.
+Lemma init_level_1 : init_level = 1%nat. Proof. reflexivity. Qed.
+
 (* level 3: an invalid value is refused at the assignment and the stored value stays as it was *)
 Theorem invalid_assignment_level3 O c v : valid O (mkF (f_dt c) v) = false ->
   lstep O 3 c (LSet v) = (c, Err (G EFormat)).
-Proof. intro H. unfold lstep. cbn [Nat.leb andb]. rewrite H. reflexivity. Qed.
+Proof. intro H. unfold lstep; rewrite ?set_level_3, ?write_level_2. cbn [Nat.leb andb]. rewrite H. reflexivity. Qed.
 
 (* level 2: the assignment is accepted, the next write of the field reports it *)
 Theorem invalid_assignment_level2 O c v : valid O (mkF (f_dt c) v) = false ->
   snd (lstep O 2 c (LSet v)) = Ok "" /\ snd (lstep O 2 (fst (lstep O 2 c (LSet v))) LWrite) = Err (G EFormat).
-Proof. intro H. unfold lstep. cbn [Nat.leb andb fst snd]. rewrite H. split; reflexivity. Qed.
+Proof. intro H. unfold lstep; rewrite ?set_level_3, ?write_level_2. cbn [Nat.leb andb fst snd]. rewrite H. split; reflexivity. Qed.
 
 (* every level: an explicit validation reports a stored invalid value *)
 Theorem invalid_value_found_by_validate O level c : valid O c = false -> snd (lstep O level c LValidate) = Err (G EFormat).
-Proof. intro H. unfold lstep. rewrite H. reflexivity. Qed.
+Proof. intro H. unfold lstep; rewrite ?set_level_3, ?write_level_2. rewrite H. reflexivity. Qed.
 
 (* a valid assignment is never rejected, is written as assigned and validates, at every level *)
 Theorem valid_assignment_accepted O level c v : valid O (mkF (f_dt c) v) = true ->
@@ -234,14 +239,14 @@ Theorem valid_assignment_accepted O level c v : valid O (mkF (f_dt c) v) = true 
   snd (lstep O level (mkF (f_dt c) v) LWrite) = Ok v /\
   snd (lstep O level (mkF (f_dt c) v) LValidate) = Ok "".
 Proof.
-  intro H. unfold lstep. rewrite H. cbn [negb]. rewrite !Bool.andb_false_r. repeat split.
+  intro H. unfold lstep; rewrite ?set_level_3, ?write_level_2. rewrite H. cbn [negb]. rewrite !Bool.andb_false_r. repeat split.
 Qed.
 
 (* over any sequence of operations: at level 3 the stored value is always valid (if it was to begin with); at level
    >= 2 every text that was written is valid *)
 Lemma lstep_level3_keeps_valid O c o : valid O c = true -> valid O (fst (lstep O 3 c o)) = true.
 Proof.
-  intro H. destruct o as [v| |]; unfold lstep; cbn [Nat.leb andb].
+  intro H. destruct o as [v| |]; unfold lstep; rewrite ?set_level_3, ?write_level_2; cbn [Nat.leb andb].
   - destruct (valid O (mkF (f_dt c) v)) eqn:E; cbn [negb fst]; [exact E|exact H].
   - rewrite H. exact H.
   - rewrite H. exact H.
@@ -257,6 +262,6 @@ Qed.
 Theorem level2_writes_only_valid O level c : (2 <= level)%nat ->
   forall t, snd (lstep O level c LWrite) = Ok t -> t = f_text c /\ valid O c = true.
 Proof.
-  intros L t. unfold lstep. destruct (Nat.leb_spec 2 level) as [_|C]; [|lia]. cbn [andb].
+  intros L t. unfold lstep; rewrite ?set_level_3, ?write_level_2. destruct (Nat.leb_spec 2 level) as [_|C]; [|lia]. cbn [andb].
   destruct (valid O c); cbn [negb snd]; [intro H; injection H as <-; auto|discriminate].
 Qed.
